@@ -482,7 +482,10 @@ def install(ip):
         f = z3.Function('allclose', z3.ArraySort(z3.IntSort(), z3.RealSort()), z3.ArraySort(z3.IntSort(), z3.RealSort()), z3.IntSort(), z3.BoolSort())
         if len(shape) != 1:
             raise Unsupported('np.allclose of non 1-D arrays')
-        return f(array_term(ip, a, mappers[0]), array_term(ip, b, mappers[1]), to_int(shape[0]))
+        ta, tb = array_term(ip, a, mappers[0]), array_term(ip, b, mappers[1])
+        if ta.eq(tb):
+            return True          # allclose is reflexive on finite data (assumed: no nan in tabulated k grids)
+        return f(ta, tb, to_int(shape[0]))
 
     @reg('numpy.arange')
     def _arange(ip, args, kw):
@@ -580,7 +583,11 @@ def install(ip):
         key = name if isinstance(name, str) else getattr(name, 'key', None)
         if key not in ip.st.files:
             raise Unsupported('np.loadtxt of an unknown file')
-        return ip.st.files[key]
+        if kw or len(args) > 1:
+            raise Unsupported('np.loadtxt with options')
+        # assumed contract: a fresh array holding the file's numbers (2-D for several columns,
+        # 1-D for one column with >= 2 rows, 0-d for a single number)
+        return ip.copy_array(ip.st.files[key])
 
     @reg('ndarray.reshape')
     def _reshape(ip, args, kw):
@@ -689,6 +696,20 @@ def install(ip):
     @reg('builtins.ipow')
     def _sipow(ip, args, kw):
         return ip.power(args[0], args[1])
+
+    @reg('builtins.koyama_w')
+    def _koyama_w(ip, args, kw):
+        k, n, p = args
+        f = z3.Function('koyama_w', z3.RealSort(), z3.IntSort(), z3.RealSort(), z3.RealSort(), z3.RealSort(), z3.RealSort())
+        return f(to_real(k), to_int(n), to_real(p[0]), to_real(p[1]), to_real(p[2]))
+
+    @reg('builtins.allclose')
+    def _sallclose(ip, args, kw):
+        return _allclose(ip, args, kw)
+
+    @reg('builtins.loadtxt')
+    def _sloadtxt(ip, args, kw):
+        return _loadtxt(ip, args, kw)
 
     @reg('builtins.is_none')
     def _isnone(ip, args, kw):
